@@ -224,5 +224,98 @@ Section Str.
   Theorem words_spec : forall s,
     Forall wordy (sl_words is_space s) /\ concat (sl_words is_space s) = filter (fun c => negb (is_space c)) s.
   Proof. intros s. exact (words_go_spec s [] (Forall_nil _)). Qed.
+
+  (* words(s) are exactly the maximal runs of non-whitespace: s reads gap, word, gap, word, ..., gap
+     where gaps are whitespace only, words are non-empty and whitespace-free, and every word is
+     followed by whitespace or the end of the string (so no run is cut in two) *)
+  Inductive words_of : str -> list str -> Prop :=
+  | wo_end : forall g, Forall (fun c => is_space c = true) g -> words_of g []
+  | wo_word : forall g w rest ws,
+      Forall (fun c => is_space c = true) g -> w <> [] -> Forall (fun c => is_space c = false) w ->
+      match rest with [] => True | c :: _ => is_space c = true end ->
+      words_of rest ws -> words_of (g ++ w ++ rest) (w :: ws).
+
+  Lemma wo_space : forall c t ws, is_space c = true -> words_of t ws -> words_of (c :: t) ws.
+  Proof.
+    intros c t ws Hc H. inversion H; subst.
+    - apply wo_end. constructor; auto.
+    - change (c :: g ++ w ++ rest) with ((c :: g) ++ w ++ rest). apply wo_word; auto.
+  Qed.
+
+  Lemma words_go_runs : forall s cur, Forall (fun c => is_space c = false) cur ->
+    match cur with
+    | [] => words_of s (words_go is_space [] s)
+    | _ => exists w' rest ws, s = w' ++ rest /\ Forall (fun c => is_space c = false) w' /\
+             match rest with [] => True | c :: _ => is_space c = true end /\
+             words_of rest ws /\ words_go is_space cur s = (rev cur ++ w') :: ws
+    end.
+  Proof.
+    induction s as [|c t IH]; intros cur Hcur.
+    - destruct cur as [|a cur']; [apply wo_end; constructor|].
+      exists [], [], []. cbn [words_go app]. rewrite app_nil_r. repeat split; auto. apply wo_end. constructor.
+    - destruct (is_space c) eqn:E.
+      + pose proof (IH [] (Forall_nil _)) as I0. cbn beta iota in I0.
+        destruct cur as [|a cur']; cbn [words_go]; rewrite E.
+        * now apply wo_space.
+        * exists [], (c :: t), (words_go is_space [] t). cbn [app]. rewrite app_nil_r.
+          repeat split; auto. now apply wo_space.
+      + assert (Hc : Forall (fun c0 => is_space c0 = false) (c :: cur)) by (constructor; auto).
+        pose proof (IH (c :: cur) Hc) as I1. cbn beta iota in I1.
+        destruct I1 as (w' & rest & ws & Et & Hw & Hr & Hwo & Hgo).
+        destruct cur as [|a cur']; cbn [words_go]; rewrite E.
+        * rewrite Hgo. cbn [rev app]. subst t.
+          change (c :: w' ++ rest) with ([] ++ (c :: w') ++ rest). apply wo_word; [constructor|discriminate|constructor; auto|exact Hr|exact Hwo].
+        * exists (c :: w'), rest, ws. subst t. repeat split; auto.
+          rewrite Hgo. cbn [rev]. now rewrite <- !app_assoc.
+  Qed.
+
+  Theorem words_maximal_runs : forall s, words_of s (sl_words is_space s).
+  Proof. intros s. exact (words_go_runs s [] (Forall_nil _)). Qed.
+
+  (* and the decomposition determines the words: the relation is functional *)
+  Lemma words_of_functional : forall s ws1, words_of s ws1 -> forall ws2, words_of s ws2 -> ws1 = ws2.
+  Proof.
+    assert (Hsp : forall g : str, Forall (fun c => is_space c = true) g -> forall c, In c g -> is_space c = true)
+      by (intros g Hg; now apply Forall_forall).
+    assert (Hns : forall w : str, Forall (fun c => is_space c = false) w -> forall c, In c w -> is_space c = false)
+      by (intros w Hw; now apply Forall_forall).
+    (* strip a gap: the first non-space character is where the first word starts *)
+    assert (Strip : forall (g1 g2 : str) (x1 x2 : str),
+      Forall (fun c => is_space c = true) g1 -> Forall (fun c => is_space c = true) g2 ->
+      match x1 with [] => True | c :: _ => is_space c = false end ->
+      match x2 with [] => True | c :: _ => is_space c = false end ->
+      g1 ++ x1 = g2 ++ x2 -> g1 = g2 /\ x1 = x2).
+    { induction g1 as [|a g1 IH]; intros g2 x1 x2 H1 H2 N1 N2 Eq.
+      - destruct g2 as [|b g2]; [auto|]. cbn [app] in Eq. subst x1. pose proof (Forall_inv H2) as Hb. cbv beta in Hb. congruence.
+      - destruct g2 as [|b g2].
+        + cbn [app] in Eq. subst x2. pose proof (Forall_inv H1) as Ha. cbv beta in Ha. congruence.
+        + cbn [app] in Eq. injection Eq as Eab Eq. subst b.
+          destruct (IH g2 x1 x2 (Forall_inv_tail H1) (Forall_inv_tail H2) N1 N2 Eq) as [-> ->]. auto. }
+    assert (StripW : forall (w1 w2 : str) (r1 r2 : str),
+      Forall (fun c => is_space c = false) w1 -> Forall (fun c => is_space c = false) w2 ->
+      match r1 with [] => True | c :: _ => is_space c = true end ->
+      match r2 with [] => True | c :: _ => is_space c = true end ->
+      w1 ++ r1 = w2 ++ r2 -> w1 = w2 /\ r1 = r2).
+    { induction w1 as [|a w1 IH]; intros w2 r1 r2 H1 H2 N1 N2 Eq.
+      - destruct w2 as [|b w2]; [auto|]. cbn [app] in Eq. subst r1. pose proof (Forall_inv H2) as Hb. cbv beta in Hb. congruence.
+      - destruct w2 as [|b w2].
+        + cbn [app] in Eq. subst r2. pose proof (Forall_inv H1) as Ha. cbv beta in Ha. congruence.
+        + cbn [app] in Eq. injection Eq as Eab Eq. subst b.
+          destruct (IH w2 r1 r2 (Forall_inv_tail H1) (Forall_inv_tail H2) N1 N2 Eq) as [-> ->]. auto. }
+    intros s ws1 H1. induction H1 as [g Hg|g w rest ws Hg Hne Hw Hr Hrest IH]; intros ws2 H2.
+    - inversion H2 as [|g' w' rest' ws' Hg' Hne' Hw' Hr' Hrest' Eq]; subst; [reflexivity|].
+      exfalso. destruct w' as [|c w'']; [congruence|]. pose proof (Forall_inv Hw') as Hc. cbv beta in Hc.
+      assert (Hin : In c (g' ++ (c :: w'') ++ rest')) by (apply in_or_app; right; now left).
+      rewrite (Hsp _ Hg c Hin) in Hc. discriminate.
+    - inversion H2 as [g' Hg' Eq|g' w' rest' ws' Hg' Hne' Hw' Hr' Hrest' Eq]; subst.
+      + exfalso. destruct w as [|c w'']; [congruence|]. pose proof (Forall_inv Hw) as Hc. cbv beta in Hc.
+        assert (Hin : In c (g ++ (c :: w'') ++ rest)) by (apply in_or_app; right; now left).
+        rewrite (Hsp _ Hg' c Hin) in Hc. discriminate.
+      + destruct (Strip g' g (w' ++ rest') (w ++ rest)) as [_ E2]; auto.
+        * destruct w' as [|c w'']; [congruence|]. exact (Forall_inv Hw').
+        * destruct w as [|c w'']; [congruence|]. exact (Forall_inv Hw).
+        * destruct (StripW w' w rest' rest) as [-> ->]; auto. f_equal. now apply IH.
+  Qed.
 End Str.
 Arguments wordy {Ch} is_space w.
+Arguments words_of {Ch} is_space _ _.
